@@ -610,21 +610,38 @@ fn docs(n: usize) -> Vec<String> {
     (0..n).map(|i| format!("doc line {i} of it")).collect()
 }
 
-/// Programs with doc comments (0..=2 lines, attached or detached by a blank line) on every
+/// Programs with doc comments (0..=2 lines, attached or detached by a blank line, with and without a banner comment above a blank line above them) on every
 /// declaration kind that can carry them, class references with 0..=3 positional arguments
 /// followed by 0..=1 named ones in every reference position, and field overrides.
 pub fn hover_programs(mut f: impl FnMut(&Program) -> bool) {
+    // (comment lines, blank line before the declaration); an empty line is a blank line inside the run:
+    // what is above it is a banner, not documentation
+    let mut shapes: Vec<(Vec<String>, bool)> = Vec::new();
     for doc_lines in 0..3usize {
         for blank in [false, true] {
-            if blank && doc_lines == 0 {
-                continue;
+            if !(blank && doc_lines == 0) {
+                shapes.push((docs(doc_lines), blank));
             }
+        }
+    }
+    let banner = |n: usize, below: usize, blank: bool| -> (Vec<String>, bool) {
+        let mut v: Vec<String> = (0..n).map(|i| format!("banner {i}")).collect();
+        v.push(String::new());
+        v.extend(docs(below));
+        (v, blank)
+    };
+    shapes.push(banner(1, 1, false));
+    shapes.push(banner(2, 2, false));
+    shapes.push(banner(1, 0, false));
+    shapes.push(banner(1, 1, true));
+    for (shape_doc, blank) in shapes {
+        {
             for positional in 0..4usize {
                 for named in 0..2usize {
                     if positional + named > 3 {
                         continue;
                     }
-                    let d = docs(doc_lines);
+                    let d = shape_doc.clone();
                     let p = Item::Class {
                         doc: d.clone(),
                         blank,
